@@ -158,18 +158,49 @@ def check_numbers():
                 fail("python floor division / modulo", a, b)
 
 
+def check_unicode():
+    """A-UNI (pyvc/models_uni.py): the SHAPE of unicodedata.decomposition / category that the abstraction assumes"""
+    import unicodedata
+    n = 0
+    for c in range(0x110000):
+        ch = chr(c)
+        dec = unicodedata.decomposition(ch)
+        fields = dec.split()
+        cat = unicodedata.category(ch)
+        n += 1
+        if bool(dec) != (len(fields) > 0):
+            fail("decomposition truthiness = has fields", c)
+        for k, f in enumerate(fields):
+            tag = f.startswith("<")
+            if tag and k != 0:
+                fail("only the first field can be a tag", c)
+            if not tag:
+                try:
+                    v = int(f, 16)
+                    chr(v)
+                except ValueError:
+                    fail("a field that is not a tag is a code point in hex", c, f)
+        if not cat:
+            fail("category is never empty", c)
+        if c < 128 and (fields or cat.startswith("M")):
+            fail("ASCII has no decomposition and is not a mark", c)
+    return n
+
+
 def main():
     full = "--full" in sys.argv
     nm, nd = check_calendar(full)
     check_instants()
     check_numbers()
+    ncp = check_unicode()
     if bad:
         print("CONFORMANCE FAILED")
         for b in bad:
             print("  ", b)
         return 1
     print("conformance ok: %d months, %d days (calendar axioms, year monotone, weekday, instant encoding, timedelta rounding, "
-          "round/%%i/floor/ceil, floor division) against CPython %s" % (nm, nd, sys.version.split()[0]))
+          "round/%%i/floor/ceil, floor division), %d code points (shape of unicodedata) against CPython %s"
+          % (nm, nd, ncp, sys.version.split()[0]))
     return 0
 
 
